@@ -1,10 +1,12 @@
 --------------------------- MODULE MC_NoiseHelper ---------------------------
 EXTENDS NoiseHelper
 MCM == 3
-MCNames == {[dev |-> "dev", exp |-> "none"], [dev |-> "dev", exp |-> "dev"], [dev |-> "none", exp |-> "dev"],
-            [dev |-> "none", exp |-> "none"], [dev |-> "oth", exp |-> "dev"], [dev |-> "oth", exp |-> "none"],
+MCNames == {[dev |-> "dev", exp |-> "none", hp |-> 0], [dev |-> "dev", exp |-> "dev", hp |-> 0], [dev |-> "none", exp |-> "dev", hp |-> 0],
+            [dev |-> "none", exp |-> "none", hp |-> 0], [dev |-> "oth", exp |-> "dev", hp |-> 0], [dev |-> "oth", exp |-> "none", hp |-> 0],
             \* a name that is announced but empty is a name like any other (only an ABSENT name is exempt)
-            [dev |-> "", exp |-> "dev"], [dev |-> "", exp |-> "none"]}
+            [dev |-> "", exp |-> "dev", hp |-> 0], [dev |-> "", exp |-> "none", hp |-> 0],
+            \* a responder that attaches a payload to its handshake message
+            [dev |-> "dev", exp |-> "dev", hp |-> 7], [dev |-> "none", exp |-> "none", hp |-> 7]}
 NFc == MCM + 2
 MCDevs ==
   {[k |-> "none", i |-> 0]}
@@ -17,8 +19,9 @@ MCDevs ==
   \cup {[k |-> "wrongkey", i |-> 0], [k |-> "hserr", i |-> 1], [k |-> "hserr", i |-> 2],
         [k |-> "proto", i |-> 0], [k |-> "empty", i |-> 0], [k |-> "plaindev", i |-> 0]}
 \* deviations are exercised with a matching name configuration only
-GenNames == {[dev |-> "dev", exp |-> "dev"], [dev |-> "none", exp |-> "none"],
-             [dev |-> "oth", exp |-> "dev"], [dev |-> "oth", exp |-> "none"],
-             [dev |-> "", exp |-> "dev"], [dev |-> "", exp |-> "none"]}
-DevOnlyWithGoodName == dev.k = "none" \/ nm = [dev |-> "dev", exp |-> "dev"]
+GenNames == {[dev |-> "dev", exp |-> "dev", hp |-> 0], [dev |-> "none", exp |-> "none", hp |-> 0],
+             [dev |-> "oth", exp |-> "dev", hp |-> 0], [dev |-> "oth", exp |-> "none", hp |-> 0],
+             [dev |-> "", exp |-> "dev", hp |-> 0], [dev |-> "", exp |-> "none", hp |-> 0],
+             [dev |-> "dev", exp |-> "dev", hp |-> 7]}
+DevOnlyWithGoodName == dev.k = "none" \/ (nm.dev = "dev" /\ nm.exp = "dev")
 =============================================================================
